@@ -1,0 +1,91 @@
+//go:build verif
+
+// Verification hooks (build tag "verif"). Emits one ndjson event per pipeline
+// step to the file named by $VERIF_TRACE. Never compiled into normal builds.
+
+package prebuild
+
+import (
+	"crypto/sha256"
+	"encoding/hex"
+	"encoding/json"
+	"io/fs"
+	"os"
+	"path/filepath"
+	"sort"
+	"sync"
+)
+
+var (
+	verifMu  sync.Mutex
+	verifSeq int
+	verifOut *os.File
+)
+
+// VerifTrace appends one event to $VERIF_TRACE (no-op when the variable is unset).
+func VerifTrace(ev string, kv ...any) {
+	path := os.Getenv("VERIF_TRACE")
+	if path == "" {
+		return
+	}
+	verifMu.Lock()
+	defer verifMu.Unlock()
+	if verifOut == nil {
+		f, err := os.OpenFile(path, os.O_APPEND|os.O_CREATE|os.O_WRONLY, 0o644)
+		if err != nil {
+			return
+		}
+		verifOut = f
+	}
+	verifSeq++
+	rec := map[string]any{"ev": ev, "seq": verifSeq}
+	for i := 0; i+1 < len(kv); i += 2 {
+		rec[kv[i].(string)] = kv[i+1]
+	}
+	if ev == "prepare" && os.Getenv("VERIF_LISTING") != "" {
+		rec["listing"] = verifListing(Root.String())
+	}
+	b, err := json.Marshal(rec)
+	if err != nil {
+		return
+	}
+	_, _ = verifOut.Write(append(b, '\n'))
+}
+
+// verifListing lists every entry below root: path, type, link target, sha256.
+func verifListing(root string) []map[string]string {
+	res := []map[string]string{}
+	_ = filepath.WalkDir(root, func(p string, d fs.DirEntry, err error) error {
+		if err != nil || p == root {
+			return nil
+		}
+		rel, _ := filepath.Rel(root, p)
+		e := map[string]string{"p": rel}
+		switch {
+		case d.Type()&fs.ModeSymlink != 0:
+			e["t"] = "l"
+			e["l"], _ = os.Readlink(p)
+		case d.IsDir():
+			e["t"] = "d"
+		default:
+			e["t"] = "f"
+			if b, err := os.ReadFile(p); err == nil {
+				h := sha256.Sum256(b)
+				e["h"] = hex.EncodeToString(h[:])
+			}
+		}
+		res = append(res, e)
+		return nil
+	})
+	sort.Slice(res, func(i, j int) bool { return res[i]["p"] < res[j]["p"] })
+	return res
+}
+
+// VerifNames lists the names of registered tasks, in registration order.
+func VerifNames[T BaseInterface](tasks []T) []string {
+	res := make([]string, 0, len(tasks))
+	for _, t := range tasks {
+		res = append(res, t.Name())
+	}
+	return res
+}
